@@ -37,6 +37,7 @@ SCHEDULE_C19 = {
 CHUNK = {"plain": 100, "asan": 20, "valgrind": 1}
 VALGRIND = ["valgrind", "-q", "--error-exitcode=78", "--exit-on-first-error=yes", "--leak-check=full", "--errors-for-leak-kinds=definite", "--num-callers=12"]
 C12_ENUM = 2 * (7 + 49 + 343 + 2401)  # must equal kC12EnumCount in sim/sim_gen.h
+C12_ENUM_THOROUGH = 2 * (7 + 49 + 343 + 2401 + 16807 + 117649)  # kC12EnumMax: lengths <= 6
 
 REAL_VS_STUB = {
     "real": ["every src/*.cpp of the default configuration compiled from /repo's working tree (C++ templates for double and long double, extern \"C\" layer)",
@@ -322,7 +323,8 @@ def main():
     if prop == "C12":
         # stratified sweep (enumeration, not simulation): every sequence of length <= 4 over
         # {INIT a, INIT b, SELECT a, SELECT b, SET, GET, re-INIT a}, both precisions, in both abort builds
-        sched += [("exc.plain", "C12E", C12_ENUM), ("exit.plain", "C12E", C12_ENUM)]
+        nenum = C12_ENUM if tier == "quick" else C12_ENUM_THOROUGH  # thorough: every sequence of length <= 6
+        sched += [("exc.plain", "C12E", nenum), ("exit.plain", "C12E", nenum)]
     variants = sorted(set(v.replace("valgrind", "plain") for v, _, _ in sched))  # exc.ndebug is a variant of its own
     log("run_check: property=%s tier=%s seed=%d variants=%s" % (prop, tier, seed, ",".join(variants)))
     exes = {}
@@ -539,7 +541,7 @@ def main():
             "worker_crashes": len(crashes), "timeouts_inconclusive": len(timeouts),
             "components": REAL_VS_STUB,
             "schedule": [{"variant": v, "profile": p, "runs": n} for v, p, n in sched],
-            "stratified_enumeration": ({"what": "every call sequence of length <= 4 over {INIT a, INIT b, SELECT a, SELECT b, SET, GET, re-INIT a with another solution} x {double, long double}, each followed by a full audit", "sequences": C12_ENUM, "executed_in": ["exc.plain", "exit.plain"], "exhaustive_for_this_alphabet": True} if prop == "C12" else None),
+            "stratified_enumeration": ({"what": "every call sequence of length <= %d over {INIT a, INIT b, SELECT a, SELECT b, SET, GET, re-INIT a with another solution} x {double, long double}, each followed by a full audit" % (4 if tier == "quick" else 6), "sequences": (C12_ENUM if tier == "quick" else C12_ENUM_THOROUGH), "executed_in": ["exc.plain", "exit.plain"], "exhaustive_for_this_alphabet": True} if prop == "C12" else None),
             "known_findings_hit": [k["_text"] for k, _ in known_hits],
             "violations_reported": [{"oracle": r["oracle"], "sig": r["sig"], "count": r["count"], "replay": r["replay"]} for r in reported],
             "build_s": round(tbuild, 1), "explore_s": round(trun, 1),
